@@ -120,6 +120,17 @@ def worker(case, led):
                               f"{list(y.bond_dims)} vs {list(eb)}", key + ("compress-bd", label), f, rep)
                 except Exception as e:
                     led.check(False, "post:TTNS.compress:total", "TTNS.compress", f"{label}: raised {type(e).__name__}: {e}", key + ("compress", label), f, rep)
+                # the same through the per-bond list argument: limits equal to the current bond dimensions (entry i = bond above node i) cut nothing
+                for how, lims in (("current_bond_dims", [int(d) for d in x.bond_dims]), ("current_bond_dims_as_array", np.array([int(d) for d in x.bond_dims]))):
+                    z = x.copy()
+                    try:
+                        z.compress(temp_m_trunc=lims)
+                        led.check(close(T.dense_ttns(z, order), ref, 1e-9) and not T.qnv_tree_violations(z), "post:TTNS.compress:per_bond_list_at_current_dims_is_lossless", "TTNS.compress",
+                                  f"{label}: compress(temp_m_trunc={list(map(int, lims))}) changed the object; bond dims {list(x.bond_dims)} -> {list(z.bond_dims)}",
+                                  key + ("compress-list", label, how), dict(f, via=how), dict(rep, limits=[int(v) for v in lims]),
+                                  nontrivial=len(set(int(v) for v in lims[1:len(x.node_list)])) > 1)
+                    except Exception as e:
+                        led.check(False, "post:TTNS.compress:total", "TTNS.compress", f"{label}: compress(temp_m_trunc=list) raised {type(e).__name__}: {e}", key + ("compress-list", label, how), f, rep)
         # ---- norms / expectation values
         led.check(abs(b.ttns_norm - np.linalg.norm(vb)) <= TOL * max(1, np.linalg.norm(vb)), "post:TTNS.ttns_norm:dense_norm", "TTNS.ttns_norm", f"{b.ttns_norm} vs {np.linalg.norm(vb)}", key + ("norm",), f, rep)
         for st, v in ((a, va), (b, vb)):
